@@ -22,7 +22,9 @@ import (
 	"fmt"
 	"go/ast"
 	"go/parser"
+	"go/printer"
 	"go/token"
+	"io"
 	"path/filepath"
 	"sort"
 	"strconv"
@@ -471,4 +473,87 @@ func kaConstructor(pol *kaPkg, fn *ast.FuncDecl, short string) (string, error) {
 	return fmt.Sprintf("/-- uapolicy.%s: `%s`, `%s` -/\ndef %s : KeyAssign :=\n  { name := %q,\n    first := %s,\n    second := %s,\n    encrypt := %s, encryptKeyBits := %d, decrypt := %s, decryptKeyBits := %d,\n    signature := %s, signatureHash := %s, verify := %s, verifyHash := %s, signatureLength := %d }\n\n",
 		fn.Name.Name, order[0], order[1], nm, short, ks(keys[order[0]]), ks(keys[order[1]]),
 		encKS, encBits, decKS, decBits, sigKS, sigHash, verKS, verHash, sigLen), nil
+}
+
+// Generator topic "vadfacts" (C07, C08): which defensive guards
+// channelInstance.verifyAndDecrypt contains.  The byte model of the function
+// (Model/Chunk.lean) follows these flags, so that it mirrors the source with
+// and without the guards:
+//
+//	sigLengthGuard  `if len(b) < headerLength+c.algo.RemoteSignatureLength() { return nil, … }`
+//	                before the signature is sliced off
+//	paddingGuard    `if paddingLength > len(messageToVerify)-headerLength { return nil, … }`
+//	                before the padding is stripped
+//
+// Any other `if … { return nil, … }` on a length in that function that is not
+// one of the known statements makes the topic fail (the model would not know it).
+func init() { register("vadfacts", "VadFacts.lean", genVadFacts) }
+
+func genVadFacts(repo string) (string, error) {
+	fset := token.NewFileSet()
+	f, err := parser.ParseFile(fset, filepath.Join(repo, "uasc", "secure_channel_instance.go"), nil, 0)
+	if err != nil {
+		return "", err
+	}
+	var fn *ast.FuncDecl
+	for _, d := range f.Decls {
+		if x, ok := d.(*ast.FuncDecl); ok && x.Name.Name == "verifyAndDecrypt" && x.Recv != nil {
+			fn = x
+		}
+	}
+	if fn == nil {
+		return "", fmt.Errorf("channelInstance.verifyAndDecrypt not found")
+	}
+	src := func(n ast.Node) string {
+		var sb strings.Builder
+		if err := printerFprint(&sb, fset, n); err != nil {
+			return "?"
+		}
+		return strings.Join(strings.Fields(sb.String()), " ")
+	}
+	known := map[string]string{
+		"len(b) < headerLength+c.algo.RemoteSignatureLength()":                                                                             "sigLengthGuard",
+		"paddingLength > len(messageToVerify)-headerLength":                                                                                "paddingGuard",
+		"c.sc.cfg.SecurityMode == ua.MessageSecurityModeNone && (c.sc.cfg.SecurityPolicyURI == ua.SecurityPolicyURINone || !isAsymmetric)": "",
+		"err != nil": "",
+		"err := c.algo.VerifySignature(messageToVerify, signature); err != nil": "",
+	}
+	flags := map[string]bool{}
+	var bad error
+	for _, st := range fn.Body.List {
+		is, ok := st.(*ast.IfStmt)
+		if !ok {
+			continue
+		}
+		// only guards that return
+		returns := false
+		for _, s := range is.Body.List {
+			if _, ok := s.(*ast.ReturnStmt); ok {
+				returns = true
+			}
+		}
+		if !returns {
+			continue
+		}
+		cond := src(is.Cond)
+		if is.Init != nil {
+			cond = src(is.Init) + "; " + cond
+		}
+		name, ok := known[cond]
+		if !ok {
+			bad = fmt.Errorf("verifyAndDecrypt has an unknown guard `if %s { return … }`", cond)
+			continue
+		}
+		if name != "" {
+			flags[name] = true
+		}
+	}
+	if bad != nil {
+		return "", bad
+	}
+	return fmt.Sprintf("namespace Opcua.Gen\n\n/-- verifyAndDecrypt checks `len(b) < headerLength+RemoteSignatureLength()` before slicing the signature -/\ndef sigLengthGuard : Bool := %v\n\n/-- verifyAndDecrypt checks `paddingLength > len(messageToVerify)-headerLength` before stripping the padding -/\ndef paddingGuard : Bool := %v\n\nend Opcua.Gen\n", flags["sigLengthGuard"], flags["paddingGuard"]), nil
+}
+
+func printerFprint(w io.Writer, fset *token.FileSet, n ast.Node) error {
+	return printer.Fprint(w, fset, n)
 }
